@@ -21,6 +21,7 @@ DBGX = 'debug-only cross-check; holds on well-formed input by the cited invarian
 RULES = [
     (r'^panic:.*(::new|from_iter|ArrivalCurvePrefix::lookup|Curve::from_trace):assert#', PRECOND),
     (r'^panic:.*:assert#\d+@(new|lookup|extrapolate_next)$', PRECOND),
+    (r'^panic:arrival::curve::Curve::lookup_arrivals:panic#\d+$', 'unreachable: callers pass tail < largest_known_distance (tail = delta % largest), so the scan returns at the last entry at the latest'),
     (r'^panic:.*:panic#\d+@lookup_arrivals$', 'unreachable: callers pass tail < largest_known_distance (tail = delta % largest), so the scan returns at the last entry at the latest'),
     (r'^panic:arrival::curve::Curve::from_trace:debug_assert#\d+@distance_to', DBGX + ': the trace is non-decreasing (asserted against the newest element at loop entry; older elements by induction)'),
     (r'^sub:arrival::curve::Curve::from_trace:.*@distance_to', 'trace non-decreasing: asserted against the newest element of the window at loop entry, older ones by induction'),
